@@ -514,15 +514,15 @@ impl WritersHandle {
         ));
         let mut spec = self.spec.write().map_err(|_| FlexiLoggerError::Poison)?;
         spec.update_from(new_spec);
+        // update the global max level while the lock is still held: otherwise two concurrent
+        // changes can end with the spec of the one and the max level of the other
+        self.reconfigure(max_level);
+        drop(spec);
         #[cfg(flexi_logger_verif)]
         crate::verif_hooks::sync_op(crate::verif_hooks::Op::Release(
             "spec_lock",
             crate::verif_hooks::id_of(&self.spec),
         ));
-        // update the global max level while the lock is still held: otherwise two concurrent
-        // changes can end with the spec of the one and the max level of the other
-        self.reconfigure(max_level);
-        drop(spec);
         Ok(())
     }
 
